@@ -103,10 +103,21 @@ class HDF5Cache(BaseFullCache):
             "hdf_file_path": self.__hdf_file.hdf_file_path,
             "hdf_node_path": self.__hdf_node_path,
             "name": self.name,
+            # The index of the last accessed entry is not stored in the HDF file.
+            "last_accessed_index": self._last_accessed_index.value,
         }
 
     def __setstate__(self, state: StrKeyMapping) -> None:
+        state = dict(state)
+        last_accessed_index = state.pop("last_accessed_index", 0)
         self.__class__.__init__(self, **state)
+        # The last entry is the one of the original cache
+        # as long as the HDF node still contains it.
+        if any(
+            last_accessed_index in indices
+            for indices in self._hashes_to_indices.values()
+        ):
+            self._last_accessed_index.value = last_accessed_index
 
     def _copy_empty_cache(self) -> HDF5Cache:
         file_path = Path(self.__hdf_file.hdf_file_path)
